@@ -367,7 +367,25 @@ fn run_c05(thorough: bool, threads: usize, ctx: &Ctx) -> serde_json::Value {
 // C16: cfg decorations
 // ---------------------------------------------------------------------------------------------
 
-const PREDS: [&str; 3] = ["p0", "p1", "p2"];
+const PREDS: [&str; 4] = ["p0", "p1", "p2", "p3"];
+
+/// Decoration choices over the first n symbolic predicates: none, one attribute, or (if `two`) two attributes in either order.
+fn deco_choices(n: usize, two: bool) -> Vec<Option<&'static str>> {
+    let mut v: Vec<Option<&'static str>> = vec![None];
+    for i in 0..n {
+        v.push(Some(PREDS[i]));
+    }
+    if two {
+        for i in 0..n {
+            for j in 0..n {
+                if i != j {
+                    v.push(Some(Box::leak(format!("{} && {}", PREDS[i], PREDS[j]).into_boxed_str())));
+                }
+            }
+        }
+    }
+    v
+}
 
 fn twin_of(archs: &[RArch], truth: &dyn Fn(&str) -> bool) -> Vec<RArch> {
     let on = |c: &Option<String>| cfg_on(c, truth);
@@ -377,23 +395,28 @@ fn twin_of(archs: &[RArch], truth: &dyn Fn(&str) -> bool) -> Vec<RArch> {
 fn run_c16(thorough: bool, threads: usize, ctx: &Ctx) -> serde_json::Value {
     let always = |_: &str| true;
     // ---- (a) declarations: 6 decoration sites x {none, p0, p1, p2} x all truth vectors; two id variants ----
-    let choices: [Option<&str>; 4] = [None, Some("p0"), Some("p1"), Some("p2")];
+    // quick: p0..p2 (p0 = any(fa) is a token-prefix of p1 = any(fa, fb)); thorough: also p3 (p2 = fa is a prefix of p3 = fa = "x")
+    let npreds: usize = if thorough { 4 } else { 3 };
+    let choices = deco_choices(npreds, false);
     // two sites (the first archetype and its second component) may also carry TWO cfg attributes, in either order
-    let double: [Option<&str>; 10] = [None, Some("p0"), Some("p1"), Some("p2"), Some("p0 && p1"), Some("p1 && p0"), Some("p0 && p2"), Some("p2 && p0"), Some("p1 && p2"), Some("p2 && p1")];
+    let double = deco_choices(npreds, true);
     let mut decos: Vec<[Option<&str>; 6]> = Vec::new();
-    for a in double { for b in choices { for c in double { for d in choices { for e in choices { for f in choices {
-        decos.push([a, b, c, d, e, f]);
+    for a in &double { for b in &choices { for c in &double { for d in &choices { for e in &choices { for f in &choices {
+        decos.push([*a, *b, *c, *d, *e, *f]);
     }}}}}}
-    let variants: usize = if thorough { 3 } else { 2 };
+    let variants: Vec<usize> = if thorough { vec![0, 1, 2, 3] } else { vec![0, 1, 3] };
     let decl_count = AtomicU64::new(0);
     par(threads, &decos, ctx, |dc| {
-        for variant in 0..variants {
+        for &variant in &variants {
             let s = |o: Option<&str>| o.map(|x| x.to_string());
             // variant 1: A1 explicitly takes id 0, which collides with A0's implicit 0 exactly when A0 is enabled;
             // variant 2: explicit component ids 0 on the second component of each archetype
+            // variant 3: both archetypes carry the SAME explicit id 7 and both components of A0 the same explicit id 5
+            //            (well-formed exactly when at most one of each pair is enabled)
+            let v3 = |x: u8| if variant == 3 { Some(x) } else { None };
             let archs = vec![
-                RArch { name: "A0".into(), id: None, cfg: s(dc[0]), comps: vec![RComp { name: "Ca".into(), id: None, cfg: s(dc[1]) }, RComp { name: "Cb".into(), id: if variant == 2 { Some(0) } else { None }, cfg: s(dc[2]) }] },
-                RArch { name: "A1".into(), id: if variant == 1 { Some(0) } else { None }, cfg: s(dc[3]), comps: vec![RComp { name: "Cb".into(), id: None, cfg: s(dc[4]) }, RComp { name: "Cc".into(), id: if variant == 2 { Some(0) } else { None }, cfg: s(dc[5]) }] },
+                RArch { name: "A0".into(), id: v3(7), cfg: s(dc[0]), comps: vec![RComp { name: "Ca".into(), id: v3(5), cfg: s(dc[1]) }, RComp { name: "Cb".into(), id: if variant == 2 { Some(0) } else { v3(5) }, cfg: s(dc[2]) }] },
+                RArch { name: "A1".into(), id: if variant == 1 { Some(0) } else { v3(7) }, cfg: s(dc[3]), comps: vec![RComp { name: "Cb".into(), id: None, cfg: s(dc[4]) }, RComp { name: "Cc".into(), id: if variant == 2 { Some(0) } else { None }, cfg: s(dc[5]) }] },
             ];
             let used: Vec<&str> = PREDS.iter().cloned().filter(|p| dc.iter().any(|d| d.map(|s| s.split(" && ").any(|x| x == *p)).unwrap_or(false))).collect();
             for tv in 0..(1u32 << used.len()) {
@@ -436,12 +459,14 @@ fn run_c16(thorough: bool, threads: usize, ctx: &Ctx) -> serde_json::Value {
     let lens: Vec<usize> = if thorough { vec![1, 2, 3] } else { vec![1, 2] };
     for len in lens {
         let mut cur: Vec<Vec<Param>> = vec![vec![]];
+        // three-parameter lists use three predicates (the fourth multiplies the space by 5 for no new relation)
+        let np = if len >= 3 { 3 } else { npreds };
         for _ in 0..len {
             cur = cur.into_iter().flat_map(|p| {
                 let tys = tys.clone();
                 tys.into_iter().flat_map(move |(ty, m)| {
                     let p = p.clone();
-                    [None, Some("p0"), Some("p1"), Some("p2"), Some("p0 && p1"), Some("p1 && p0"), Some("p0 && p2"), Some("p2 && p0"), Some("p1 && p2"), Some("p2 && p1")].into_iter().map(move |c| { let mut q = p.clone(); q.push(Param { ty: ty.clone(), is_mut: m, cfg: c.map(|x| x.to_string()) }); q })
+                    deco_choices(np, true).into_iter().map(move |c| { let mut q = p.clone(); q.push(Param { ty: ty.clone(), is_mut: m, cfg: c.map(|x| x.to_string()) }); q })
                 })
             }).collect();
         }
@@ -474,9 +499,9 @@ fn run_c16(thorough: bool, threads: usize, ctx: &Ctx) -> serde_json::Value {
             }
         }
     });
-    ctx.sample(serde_json::json!({"declaration": "#[cfg(p0)] ecs_archetype!(A0, Ca, #[cfg(p1)] Cb); #[archetype_id(0)] ecs_archetype!(A1, #[cfg(p1)] Cb, Cc);", "truth": {"p0": false, "p1": true}, "twin": "#[archetype_id(0)] ecs_archetype!(A1, Cb, Cc);"}));
-    ctx.sample(serde_json::json!({"query": "ecs_iter!(world, |#[cfg(p0)] p0: &Ca, p1: &mut Cb, #[cfg(p1)] p2: &Entity<A1>| ..)", "truth": {"p0": true, "p1": false}, "twin": "|p0: &Ca, p1: &mut Cb|"}));
-    serde_json::json!({"decoration_sites": 6, "predicates": 3, "attributes_per_site": "0..1 (0..2, both orders, on two declaration sites and on every query parameter)", "declaration_variants": variants, "decorated_declarations_x_truth": decl_count.load(Ordering::Relaxed), "decorated_queries_x_truth_x_macro": query_count.load(Ordering::Relaxed), "parameter_lists": plists.len()})
+    ctx.sample(serde_json::json!({"declaration": "#[cfg(any(fa))] ecs_archetype!(A0, Ca, #[cfg(any(fa, fb))] Cb); #[archetype_id(0)] ecs_archetype!(A1, #[cfg(any(fa, fb))] Cb, Cc);", "truth": {"any(fa)": false, "any(fa, fb)": true}, "twin": "#[archetype_id(0)] ecs_archetype!(A1, Cb, Cc);"}));
+    ctx.sample(serde_json::json!({"query": "ecs_iter!(world, |#[cfg(any(fa))] p0: &Ca, p1: &mut Cb, #[cfg(any(fa, fb))] p2: &Entity<A1>| ..)", "truth": {"any(fa)": true, "any(fa, fb)": false}, "twin": "|p0: &Ca, p1: &mut Cb|"}));
+    serde_json::json!({"decoration_sites": 6, "predicates": npreds, "predicate_texts": refm::PRED_TEXT.iter().take(npreds).map(|x| x.1).collect::<Vec<_>>(), "predicate_truth": "independent per predicate (supplied by the driver in place of rustc): the texts are chosen to be token-prefixes of one another", "attributes_per_site": "0..1 (0..2, both orders, on two declaration sites and on every query parameter)", "declaration_variants": variants.len(), "decorated_declarations_x_truth": decl_count.load(Ordering::Relaxed), "decorated_queries_x_truth_x_macro": query_count.load(Ordering::Relaxed), "parameter_lists": plists.len()})
 }
 
 fn arg(args: &[String], name: &str) -> Option<String> {
